@@ -2,7 +2,9 @@
 //! lines per parser, for attribute carry-over).  The vte callback sequence is recorded with the same
 //! vte crate on the same bytes and handed to the Coq model.  Direct oracle: an SGR interpreter
 //! written from ECMA-48 / xterm's documentation, independent of skim and of the model.
+use skim::prelude::{SkimItemReader, SkimItemReaderOption};
 use skim::verif::ANSIParser;
+use skim::{DisplayContext, Matches};
 use skv::*;
 use std::collections::BTreeSet;
 use tuikit::attr::{Attr, Color, Effect};
@@ -175,11 +177,35 @@ fn main() {
                 }
                 out.push((rec.cbs, text, has, attrs));
             }
-            (out, bad)
+            // the same lines as input items (--ansi): every item starts from default attributes
+            let mut items_out = Vec::new();
+            let nonempty: Vec<&String> = ls.iter().collect();
+            let joined: String = nonempty.iter().map(|l| format!("{}\n", l)).collect();
+            let reader = SkimItemReader::new(SkimItemReaderOption::default().ansi(true).build());
+            let rx = reader.of_bufread(std::io::Cursor::new(joined.into_bytes()));
+            let items: Vec<_> = rx.iter().collect();
+            if items.len() != ls.len() && bad.is_none() { bad = Some(format!("{} lines became {} items", ls.len(), items.len())); }
+            for (li, it) in items.iter().enumerate().take(ls.len()) {
+                let text = it.text().to_string();
+                let disp = it.display(DisplayContext { text: &text, score: 0, matches: Matches::None, container_width: 80, highlight_attr: Attr::default() });
+                let attrs: Vec<(char, Attr)> = disp.iter().collect();
+                let has = disp.has_attrs();
+                let mut cur = Attr::default();
+                let mut want: Vec<(char, Attr)> = Vec::new();
+                for c in &out[li].0 {
+                    match c { Cb::Print(ch) => want.push((*ch, cur)), Cb::Execute(9) => want.push(('\t', cur)), Cb::Csi(ps, 'm') => cur = spec_sgr(ps, cur), _ => {} }
+                }
+                if bad.is_none() && attrs != want {
+                    let k = attrs.iter().zip(want.iter()).position(|(x, y)| x != y).unwrap_or(0);
+                    bad = Some(format!("item {}: character {} has attribute {:?}, its own line's SGR sequences select {:?} (items start from default attributes)", li, k, attrs.get(k).map(|x| x.1), want.get(k).map(|x| x.1)));
+                }
+                items_out.push((out[li].0.clone(), text.clone(), has, attrs));
+            }
+            (out, items_out, bad)
         });
         match res {
             Err(e) => fails.push(OracleFailure { case: id, what: format!("panic: {}", e), known: None, input }),
-            Ok((out, bad)) => {
+            Ok((out, items_out, bad)) => {
                 if let Some(m) = bad { fails.push(OracleFailure { case: id, what: m, known: None, input: input.clone() }); }
                 let mut ncsi = 0;
                 for (cbs, _, _, _) in &out { for c in cbs { match c { Cb::Csi(ps, 'm') => { ncsi += 1; for p in ps { dist.add(format!("sgr:{}", if p[0] <= 107 { format!("{}", p[0]) } else { ">107".into() })); } } Cb::Csi(..) => dist.add("csi:other"), _ => {} } } }
@@ -188,7 +214,10 @@ fn main() {
                 let ls: Vec<String> = out.iter().map(|(cbs, text, has, attrs)| format!(
                     "{{| l_cbs := {}; i_text := {}; i_has_attrs := {}; i_attrs := {} |}}",
                     coq::list(cbs.iter().map(cb_coq)), coq::text(text), coq::b(*has), coq::list(attrs.iter().map(|x| attr_coq(&x.1))))).collect();
-                w.push(id, format!("{{| c_lines := [{}] |}}", ls.join("; ")));
+                let is: Vec<String> = items_out.iter().map(|(cbs, text, has, attrs)| format!(
+                    "{{| l_cbs := {}; i_text := {}; i_has_attrs := {}; i_attrs := {} |}}",
+                    coq::list(cbs.iter().map(cb_coq)), coq::text(text), coq::b(*has), coq::list(attrs.iter().map(|x| attr_coq(&x.1))))).collect();
+                w.push(id, format!("{{| c_lines := [{}]; c_items := [{}] |}}", ls.join("; "), is.join("; ")));
             }
         }
     }
